@@ -1,4 +1,4 @@
-import CelmaVerif.Lemmas.UsageHelp
+import CelmaVerif.Lemmas.UsageTree
 /-
   C18 — the usage lists exactly the visible arguments, each once.
   Property theorems only; the specification-side definitions (how a usage text is read: `classify`,
@@ -12,6 +12,14 @@ import CelmaVerif.Lemmas.UsageHelp
   length — both layouts of the listing —, descriptions, defaults, checks, constraints of any content, any line
   length) and every sequence of the standard arguments.  `KeyClean`: no blank inside a key (`ArgumentKey`
   rejects them).
+
+  Sub-group handlers (`Tree`: a main handler and the handlers constructed with `Handler( main_ah, flags)`,
+  entered by sub-group arguments of the main handler): the tree has ONE set of display settings
+  (`t.main.params`, the `UsageParams` object all handlers share).  `evalEvs t evs t.main.params` is what the
+  standard arguments `evs` of a command line - evaluated by the main handler (`Ev.main`) or by a sub-group
+  handler (`Ev.sub k`) - leave there; `t.usageSub k evs` is the text written for `prog <evs> -g -h`.  The
+  `C18_subgroup_*` theorems quantify over every tree, every sub-group handler in it with any argument set, and
+  every sequence of standard arguments.
 -/
 namespace CelmaVerif.Props.C18
 open CelmaVerif CelmaVerif.Usage CelmaVerif.TextBlock
@@ -247,19 +255,25 @@ theorem C18_switches (f : Flags) (u : UsageParams) :
     ∧ (Handler.new f).params = { contents := .all, printHidden := f.usageHidden, printDeprecated := f.usageDeprecated } :=
   ⟨rfl, rfl, rfl, rfl, rfl⟩
 
-/-- (help for one argument) `helpArgument` with key `k` (typed as `raw`) on a handler whose arguments have
-    pairwise different keys does exactly one of three things:
+/-- (help for one argument) `helpArgument` with key `k` (typed as `raw`) on a handler whose arguments - plain
+    and sub-group arguments - have pairwise different keys does exactly one of three things:
     * some argument is meant by `k` — same key, or, when abbreviations are allowed, its long key starts with
       the long key given —: the output is the line `Argument '<k>', usage:` followed by *that argument's*
-      description as a text block (indent 3, width 80), nothing on the error stream;
+      description as a text block (indent 3, width 80), nothing on the error stream; and whenever some
+      argument has exactly the key `k`, the argument whose description is printed has exactly this key
+      (never a mere abbreviation, also when the exact one is a sub-group argument);
     * no argument is meant by `k`: nothing on the output, `*** ERROR: Argument '<raw>' is unknown!` on the
       error stream;
-    * no argument has exactly this key and the abbreviation is ambiguous (two long keys start with it):
+    * no argument has exactly this key and the abbreviation is ambiguous (two long keys start with it) among
+      the plain arguments, or - no plain argument being meant - among the sub-group arguments:
       `std::runtime_error`.
-    (Repaired in `/repo`: the unchanged tree looked the description up with the key as typed and printed an
-    empty description for every abbreviation.) -/
+    (Repaired in `/repo` twice: the unchanged tree looked the description up with the key as typed and printed
+    an empty description for every abbreviation; and it searched the plain arguments including abbreviations
+    before the sub-group arguments, so `--help-arg group` printed the description of `--group-x` although
+    `--group` is the key of a sub-group argument.) -/
 theorem C18_help_arg (h : Handler) (raw : Str) (k : Key) (hd : KeysDistinct h.args) :
     (∃ a ∈ h.args, keyMatches (!h.flags.noAbbr) a k = true
+        ∧ ((∃ b ∈ h.args, keyEq b.key k = true) → keyEq a.key k = true)
         ∧ helpArgument h raw k =
             .ok (("Argument '".toList ++ keyToString k ++ "', usage:".toList)
                   :: emit [] (TextBlock.format ⟨3, 80, true⟩ a.desc), []))
@@ -267,22 +281,152 @@ theorem C18_help_arg (h : Handler) (raw : Str) (k : Key) (hd : KeysDistinct h.ar
         ∧ helpArgument h raw k = .ok ([], ["*** ERROR: Argument '".toList ++ raw ++ "' is unknown!".toList]))
     ∨ (helpArgument h raw k = .throw .runtime_error ∧ h.flags.noAbbr = false
         ∧ (∀ a ∈ h.args, keyEq a.key k = false)
-        ∧ ∃ pre a post, h.args = pre ++ a :: post ∧ keyStartsWith a.key k = true
-            ∧ ∃ p ∈ pre, keyStartsWith p.key k = true) := by
+        ∧ ∃ c, (c = plainArgs h.args
+                ∨ (c = subGroupArgs h.args ∧ ∀ a ∈ plainArgs h.args, keyMatches (!h.flags.noAbbr) a k = false))
+          ∧ ∃ pre a post, c = pre ++ a :: post ∧ keyStartsWith a.key k = true
+              ∧ ∃ p ∈ pre, keyStartsWith p.key k = true) := by
   unfold helpArgument
-  rcases findArg_spec (!h.flags.noAbbr) h.args k with ⟨a, ha, hm, hf⟩ | ⟨hn, hf⟩ | ⟨hf, hab, hne, hrest⟩
+  rcases findArg2_spec (!h.flags.noAbbr) h.args k with ⟨a, ha, hm, hf, hex⟩ | ⟨hn, hf⟩ | ⟨hf, hab, hne, hrest⟩
   · left
-    exact ⟨a, ha, hm, by rw [hf]; simp only; rw [getArgDesc_mem h.args hd a ha]⟩
+    exact ⟨a, ha, hm, hex, by rw [hf]; simp only; rw [getArgDesc_mem h.args hd a ha]⟩
   · right; left
     exact ⟨hn, by rw [hf]⟩
   · right; right
     exact ⟨by rw [hf], by simpa using hab, hne, hrest⟩
 
-/-- (the hypothesis of `C18_help_arg` is an invariant of the API) `addArgument` rejects a key that equals or
-    mismatches a stored one, so adding arguments keeps the keys pairwise different. -/
-theorem C18_keys_distinct (h : Handler) (a : Arg) (mods : List Mod) (hd : KeysDistinct h.args) :
-    KeysDistinct (h.addArgument a mods).1.args :=
-  addArgument_distinct h a mods hd
+/-- (the hypothesis of `C18_help_arg` is an invariant of the API, per container) `addArgument` rejects a key
+    that equals or mismatches one stored in the same container - `mArguments` for plain arguments,
+    `mSubGroupArgs` for sub-group arguments -, so adding arguments keeps the keys of each container pairwise
+    different.  (As coded the two containers are not checked against each other: that a plain argument and a
+    sub-group argument differ is the caller's business and a hypothesis of `C18_help_arg`.) -/
+theorem C18_keys_distinct (h : Handler) (a : Arg) (mods : List Mod)
+    (hp : KeysDistinct (plainArgs h.args)) (hs : KeysDistinct (subGroupArgs h.args)) :
+    KeysDistinct (plainArgs (h.addArgument a mods).1.args)
+    ∧ KeysDistinct (subGroupArgs (h.addArgument a mods).1.args) :=
+  addArgument_distinct h a mods hp hs
+
+/-! ### sub-group handlers -/
+
+/-- (one set of settings for the whole tree) After the standard arguments `evs` - of the main handler and of
+    sub-group handlers, in any order - the settings `u` are accepted (`evalEvs … = .ok u`) and
+    * the usage of the main handler and the usage of every sub-group handler `k` (`-g -h`) are written under
+      these same settings `u`: the sub-group's text is the text of a handler with the sub-group's arguments and
+      line length and the settings `u`;
+    * "print hidden" is what the last `--print-hidden` stored (the main handler's preset when there was none),
+      "print deprecated" what the last `--print-deprecated` of any handler stored;
+    * at most one contents argument (`--help-short` / `--help-long`, of whichever handler) was accepted, and it
+      is the contents in force (a second one is rejected with `std::runtime_error`: `evalEvs` is not `.ok`).
+    A display setting requested on the main handler at run time therefore reaches every sub-group listing. -/
+theorem C18_settings_shared (t : Tree) (evs : List Ev) (u : UsageParams)
+    (he : evalEvs t evs t.main.params = .ok u) :
+    t.usageMain evs = usage { t.main with params := u }
+    ∧ (∀ k s, t.enter k = .ok s → t.usageSub k evs = usage (s.asHandler u))
+    ∧ u.printHidden = lastD (evs.filterMap (Ev.hiddenValue t)) t.main.params.printHidden
+    ∧ u.printDeprecated = lastD (evs.filterMap (Ev.deprValue t)) t.main.params.printDeprecated
+    ∧ (t.main.params.contents = .all →
+        evs.filterMap Ev.contentsValue = if u.contents = .all then [] else [u.contents]) := by
+  obtain ⟨h1, h2, h3⟩ := evalEvs_spec t evs t.main.params u he
+  refine ⟨?_, ?_, h1, h2, h3⟩
+  · unfold Tree.usageMain; rw [he]
+  · intro k s hs
+    unfold Tree.usageSub; rw [hs]; simp only; rw [he]
+
+/-- (sub-group listing) The text a sub-group handler writes for `prog <evs> -g -h`, read back, is exactly: the
+    arguments of THIS sub-group handler that are visible under the settings `u` the standard arguments `evs`
+    left in the shared object - mandatory ones first under the mandatory caption, optional ones under the
+    optional caption, in definition order, each with the key(s) the contents setting asks for and the words of
+    description + notes.  Nothing else (no argument of the main handler or of another sub-group) is listed. -/
+theorem C18_subgroup_listing (t : Tree) (k : Nat) (s : SubHandler) (evs : List Ev) (u : UsageParams) (ls : List Str)
+    (hs : t.subs[k]? = some s) (hk : ∀ a ∈ s.args, KeyClean a.key)
+    (he : evalEvs t evs t.main.params = .ok u) (hu : t.usageSub k evs = .ok ls) :
+    parseUsage ls = expectedListing u s.args := by
+  obtain ⟨s', u', hs', he', hw⟩ := usageSub_ok t k evs ls hu
+  rw [hs] at hs'; rw [he] at he'
+  simp only [Option.some.injEq] at hs'
+  simp only [Res.ok.injEq] at he'
+  subst hs' he'
+  exact C18_listing (s.asHandler u) [] ls hk hw
+
+/-- (sub-group membership, each exactly once) The keys listed by the sub-group handler are, as a multiset, the
+    shown keys of exactly its arguments visible under the CURRENT shared settings - hidden ones only when
+    print-hidden is in force, deprecated / replaced ones only with print-deprecated, under short-only /
+    long-only only those with such a key -; every listed entry is the expected entry of a visible argument (so
+    it stands under the caption of its kind) and every visible argument's entry is present. -/
+theorem C18_subgroup_membership (t : Tree) (k : Nat) (s : SubHandler) (evs : List Ev) (u : UsageParams)
+    (ls : List Str) (hs : t.subs[k]? = some s) (hk : ∀ a ∈ s.args, KeyClean a.key)
+    (he : evalEvs t evs t.main.params = .ok u) (hu : t.usageSub k evs = .ok ls) :
+    ((parseUsage ls).map Entry.key).Perm ((s.args.filter (visible u)).map (shownKey u))
+    ∧ (∀ e ∈ parseUsage ls, ∃ a ∈ s.args, visible u a = true ∧ e = expectedEntry u a)
+    ∧ (∀ a ∈ s.args, visible u a = true → expectedEntry u a ∈ parseUsage ls) := by
+  obtain ⟨s', u', hs', he', hw⟩ := usageSub_ok t k evs ls hu
+  rw [hs] at hs'; rw [he] at he'
+  simp only [Option.some.injEq] at hs'
+  simp only [Res.ok.injEq] at he'
+  subst hs' he'
+  exact C18_membership (s.asHandler u) [] ls hk hw
+
+/-- (sub-group, short only / long only) When the contents in force is "short only" the sub-group listing shows
+    exactly its visible arguments that have a short key, as `-c`; with "long only" exactly those with a long
+    key, as `--word` - no matter which handler's `--help-short` / `--help-long` asked for it. -/
+theorem C18_subgroup_contents (t : Tree) (k : Nat) (s : SubHandler) (evs : List Ev) (u : UsageParams)
+    (ls : List Str) (hs : t.subs[k]? = some s) (hk : ∀ a ∈ s.args, KeyClean a.key)
+    (he : evalEvs t evs t.main.params = .ok u) (hu : t.usageSub k evs = .ok ls) :
+    (u.contents = .shortOnly →
+      (∀ e ∈ parseUsage ls, ∃ a ∈ s.args, ∃ c, a.key.short = some c ∧ e.key = ['-', c])
+      ∧ (∀ a ∈ s.args, ∀ c, a.key.short = some c → (u.printHidden || !a.hidden) = true →
+          (u.printDeprecated || !a.deprecated) = true →
+          ∃ e ∈ parseUsage ls, e.key = ['-', c] ∧ e.mandatory = some a.mandatory))
+    ∧ (u.contents = .longOnly →
+      (∀ e ∈ parseUsage ls, ∃ a ∈ s.args, a.key.long ≠ [] ∧ e.key = '-' :: '-' :: a.key.long)
+      ∧ (∀ a ∈ s.args, a.key.long ≠ [] → (u.printHidden || !a.hidden) = true →
+          (u.printDeprecated || !a.deprecated) = true →
+          ∃ e ∈ parseUsage ls, e.key = '-' :: '-' :: a.key.long ∧ e.mandatory = some a.mandatory)) := by
+  obtain ⟨s', u', hs', he', hw⟩ := usageSub_ok t k evs ls hu
+  rw [hs] at hs'; rw [he] at he'
+  simp only [Option.some.injEq] at hs'
+  simp only [Res.ok.injEq] at he'
+  subst hs' he'
+  exact ⟨fun hc => C18_contents_short (s.asHandler u) [] ls hk hw hc,
+         fun hc => C18_contents_long (s.asHandler u) [] ls hk hw hc⟩
+
+/-- (sub-group captions) The caption lines of the sub-group listing: mandatory caption iff one of its mandatory
+    arguments is visible under the shared settings, optional caption iff an optional one is, in this order. -/
+theorem C18_subgroup_captions (t : Tree) (k : Nat) (s : SubHandler) (evs : List Ev) (u : UsageParams)
+    (ls : List Str) (hs : t.subs[k]? = some s)
+    (he : evalEvs t evs t.main.params = .ok u) (hu : t.usageSub k evs = .ok ls) :
+    captions ls =
+      (if (s.args.filter fun a => a.mandatory && visible u a) ≠ [] then [true] else [])
+      ++ (if (s.args.filter fun a => !a.mandatory && visible u a) ≠ [] then [false] else []) := by
+  obtain ⟨s', u', hs', he', hw⟩ := usageSub_ok t k evs ls hu
+  rw [hs] at hs'; rw [he] at he'
+  simp only [Option.some.injEq] at hs'
+  simp only [Res.ok.injEq] at he'
+  subst hs' he'
+  exact C18_captions (s.asHandler u) [] ls hw
+
+/-- (the sub-group argument in the main listing) In the usage of the main handler a sub-group argument is an
+    argument like any other (`C18_listing` … `C18_entry` quantify over all of `h.args`): it is listed once,
+    under the caption of its kind, with its keys and description, hidden / deprecated as it was defined - and
+    it never shows a default value or a check unless `setPrintDefault( true)` was called on it (then the usage
+    throws: `TypedArgBase::defaultValue()`), because `addArgument( key, subGroup, desc)` creates it without
+    value, without default and with "print default" off. -/
+theorem C18_subgroup_argument (key : Key) (desc : Str) (k : Nat) :
+    (subGroupArg key desc k).subGroup = some k
+    ∧ defaultNote (subGroupArg key desc k) = [] ∧ checkNote (subGroupArg key desc k) = []
+    ∧ defaultMissing (subGroupArg key desc k) = false
+    ∧ (∀ u, visible u (subGroupArg key desc k) =
+        (match u.contents with | .all => true | .shortOnly => key.short.isSome | .longOnly => !key.long.isEmpty)) := by
+  refine ⟨rfl, rfl, rfl, rfl, ?_⟩
+  intro u
+  cases hc : u.contents <;> simp [visible, subGroupArg, hc]
+
+/-- (help for one argument of a sub-group) `-g --help-arg <key>` and `--help-arg <g>/<key>` both end in
+    `helpArgument` of the sub-group handler on ITS arguments: the trichotomy of `C18_help_arg` holds for it
+    (its arguments are all plain ones: the tree has depth 2). -/
+theorem C18_subgroup_help_arg (t : Tree) (k : Nat) (s : SubHandler) (raw : Str) (key : Key)
+    (hs : t.enter k = .ok s) :
+    t.helpArgumentSub k raw key = helpArgument (s.asHandler t.main.params) raw key := by
+  unfold Tree.helpArgumentSub; rw [hs]
 
 /-! ### the hypotheses are satisfiable, the statements are not vacuous -/
 
@@ -330,6 +474,62 @@ example :
         = some (["Argument '--inp', usage:".toList, "   the input".toList], [])
     ∧ okVal (helpArgument h "zz".toList ⟨none, "zz".toList⟩) = some ([], ["*** ERROR: Argument 'zz' is unknown!".toList])
     ∧ thrown (helpArgument h "in".toList ⟨none, "in".toList⟩) = some .runtime_error := by
+  decide
+
+/-- a tree: main handler with `-h`, `--help-short`, `--print-hidden`, `--print-deprecated` and the sub-group
+    argument `-g,--group`; the sub-group handler (own `-h`, own `--help-long`) has a visible argument
+    `-c,--cee`, a hidden flag `-b` and a deprecated `--old`.  The hypotheses of the `C18_subgroup_*` theorems
+    hold, and the sub-group listing follows the settings requested on the MAIN handler at run time:
+    nothing requested - `-h`, `--help-long`, `-c,--cee`; `--print-hidden -g -h` - plus `-b`;
+    `--print-deprecated -g -h` - plus `--old`; `--help-short -g -h` - `-h`, `-c`;
+    `--help-short -g --help-long -h` is rejected; and the main listing shows the sub-group argument once. -/
+example :
+    ∃ t : Tree, ∃ s, t.enter 0 = .ok s ∧ t.subs[0]? = some s ∧ (∀ a ∈ s.args, KeyClean a.key)
+      ∧ (okVal (t.usageSub 0 [])).map (fun ls => ((parseUsage ls).map Entry.key, captions ls))
+          = some (["-h".toList, "--help-long".toList, "-c,--cee".toList], [false])
+      ∧ (okVal (t.usageSub 0 [.main .printHidden])).map (fun ls => (parseUsage ls).map Entry.key)
+          = some ["-h".toList, "--help-long".toList, "-c,--cee".toList, "-b".toList]
+      ∧ (okVal (t.usageSub 0 [.main .printDeprecated])).map (fun ls => (parseUsage ls).map Entry.key)
+          = some ["-h".toList, "--help-long".toList, "-c,--cee".toList, "--old".toList]
+      ∧ (okVal (t.usageSub 0 [.main .helpShort])).map (fun ls => (parseUsage ls).map Entry.key)
+          = some ["-h".toList, "-c".toList]
+      ∧ (okVal (t.usageSub 0 [.main .printHidden, .sub 0 .helpLong])).map (fun ls => (parseUsage ls).map Entry.key)
+          = some ["--help-long".toList, "--cee".toList]
+      ∧ thrown (t.usageSub 0 [.main .helpShort, .sub 0 .helpLong]) = some .runtime_error
+      ∧ (okVal (evalEvs t [.main .printHidden, .sub 0 .helpLong] t.main.params))
+          = some { contents := .longOnly, printHidden := true, printDeprecated := false }
+      ∧ (okVal (t.usageMain [])).map (fun ls => (parseUsage ls).map Entry.key)
+          = some ["-h".toList, "--print-deprecated".toList, "--help-short".toList, "--print-hidden".toList,
+                  "-g,--group".toList] := by
+  let f : Flags := { Flags.none with helpShort := true, argHidden := true, argDeprecated := true, usageShort := true }
+  let sf : Flags := { Flags.none with helpShort := true, usageLong := true }
+  let a1 : Arg := { key := ⟨some 'c', "cee".toList⟩, desc := "the c".toList, takesValue := true, isFlag := false,
+                    defaultText := some "0".toList, printDefault := true }
+  let a2 : Arg := { key := ⟨some 'b', []⟩, desc := "secret".toList, takesValue := false, isFlag := true,
+                    defaultText := none, printDefault := false, hidden := true }
+  let a3 : Arg := { key := ⟨none, "old".toList⟩, desc := "old one".toList, takesValue := true, isFlag := false,
+                    defaultText := some "0".toList, printDefault := false, deprecated := true }
+  let t0 := (Tree.new f).newSub sf
+  let t : Tree := { (t0.addArgument (subGroupArg ⟨some 'g', "group".toList⟩ "the group".toList 0) []).1 with
+                    subs := [{ flags := sf, args := subStdArgs sf ++ [a1, a2, a3], deprValue := true }] }
+  refine ⟨t, { flags := sf, args := subStdArgs sf ++ [a1, a2, a3], deprValue := true }, rfl, rfl, ?_,
+    by decide, by decide, by decide, by decide, by decide, by decide, by decide, by decide⟩
+  have hargs : ∀ a ∈ subStdArgs sf ++ [a1, a2, a3], keyCleanB a.key = true := by decide
+  exact fun a ha => keyClean_of_bool _ (hargs a ha)
+
+/-- `--help-arg group` on a handler with the plain argument `--group-x` and the sub-group argument `--group`
+    prints the description of the sub-group argument (exact key), `--help-arg gro` that of `--group-x`
+    (abbreviation: only the plain arguments are meant first) -/
+example :
+    let h := (((Handler.new { Flags.none with helpArg := true }).addArgument
+                { key := ⟨none, "group-x".toList⟩, desc := "x flag".toList, takesValue := false, isFlag := true,
+                  defaultText := none, printDefault := false } []).1.addArgument
+                (subGroupArg ⟨some 'g', "group".toList⟩ "the group".toList 0) []).1
+    KeysDistinct h.args
+    ∧ okVal (helpArgument h "group".toList ⟨none, "group".toList⟩)
+        = some (["Argument '--group', usage:".toList, "   the group".toList], [])
+    ∧ okVal (helpArgument h "gro".toList ⟨none, "gro".toList⟩)
+        = some (["Argument '--gro', usage:".toList, "   x flag".toList], []) := by
   decide
 
 end CelmaVerif.Props.C18
